@@ -132,7 +132,8 @@ def rule_b1(ck, prog):
     else:
         ck.holds("C17-B1", st, K.loc(f, r), "format(len) / remaining = len / '#' + digit count + decimal length")
     # bounds of the header buffer (strlen needs the value bound len < 10^9 of the property: listed undecided)
-    BR.check_function(ck, prog, "C17-B1", "SCPI_ResultArbitraryBlockHeader", min_sites=3)
+    # the property ranges over lengths below 10^9 bytes: the decimal text has at most 9 characters
+    BR.check_function(ck, prog, "C17-B1", "SCPI_ResultArbitraryBlockHeader", min_sites=3, assume=[(lenp, "<=", 999999999)])
 
 
 def rule_b2(ck, prog):
